@@ -31,6 +31,10 @@ CLAIMS = {
    technique="runtime monitoring: VerifyEventSignatures driven over enumerated (version, event kind, role assignment, per-signer fault) cases with a recording verifier around a real KeyRing; monitors compare the set of servers asked, the timestamp asked and the verdict with an independent conjunction over required signers",
    text="All 15 non-pseudo-ID versions x 10 event kinds x role assignments (sender / event-ID server / invitee / authoriser drawn from 4 servers, coincidences included) x all-good, every single fault on a required signer (9 signer states) and random multi-fault vectors x 0-2 unrelated signatures. The recording verifier shows which servers the library asked about and at which timestamp; the verdict is compared with the conjunction computed from the fault vector, itself cross-checked by an independent ed25519 verification.",
    note=TB + "KeyRing with database only (fetcher interplay is C12); pseudo-ID version (mxid_mapping self-signatures) not driven."),
+ "C13": dict(level="exploration", design="§4 C13",
+   technique="runtime monitoring: signed federation requests carried through real HTTP/1.1 framing into VerifyHTTPRequest; monitors compare the reported method/URI/origin/destination/body with what was signed and assert refusal under ~35 single-field tamperings, key-validity faults and foreign receivers, acceptance under legal header/body re-spellings",
+   text="Each generated request (methods x escaped paths/queries x bodies x DNS/IPv4/IPv6 names with and without ports x key IDs x single- or multi-name receivers) is signed with the real API, written with http.Request.Write and re-read with http.ReadRequest; the untampered request must verify and report exactly what was signed, re-spelled headers/bodies must still verify, and every tampering class (request line, each Authorization parameter, duplicated/conflicting/garbage headers, body value/absence/UTF-8/JSON validity, content type, key expired / past valid_until / wrong / unknown, receiver not owning the destination) must be refused.",
+   note=TB + "net/http; key validity offsets of +-1 h around the wall clock (one-sided); abstains on a missing destination parameter and on auth-scheme case."),
 }
 NOT_YET = "check not built yet (work in progress; see DESIGN.md §4 for the planned monitor)"
 
